@@ -51,7 +51,7 @@ COSMO_BOX = {
 }
 
 
-def gen_config(rng, force=False, mixed=False, custom_sne=False, with_kde=False, file_sne=False, dspl=False):
+def gen_config(rng, force=False, mixed=False, custom_sne=False, with_kde=False, file_sne=False, dspl=False, mag_noninterp=False):
     """force: the configuration with the most sampled blocks (log-space scatters, two anisotropy scatters);
     mixed: a sample in which a kinematic lens WITHOUT a slope axis precedes lenses that sample their own slope"""
     cosmology = rng.choice(["FLCDM", "FwCDM", "w0waCDM", "oLCDM", "oLCDM"])
@@ -95,6 +95,17 @@ def gen_config(rng, force=False, mixed=False, custom_sne=False, with_kde=False, 
         kw.pop("anisotropy_sampling", None)
         kw["z_source"], kw["z_source2"] = rng.uniform(0.8, 1.4), rng.uniform(2.2, 3.2)
         lenses = [(kw, lt, data)] + [l for l in lenses if max(l[0].get("z_source", 0), l[0].get("z_source2", 0)) < 2.0][:1]
+    if mag_noninterp:
+        # every magnification-carrying type (they alone ask the cosmology for a luminosity distance) in front of the sample
+        for want_lt in lc.MAG_TYPES:
+            for _ in range(4000):
+                kw, lt, data = c07.gen_lens(rng, npop, {})
+                if lt == want_lt:
+                    break
+            kw.pop("lambda_mst_distribution", None)
+            kw.pop("anisotropy_sampling", None)
+            lenses.insert(0, (kw, lt, data))
+        lenses = lenses[:len(lc.MAG_TYPES) + 1]
     has_grid = any("kin_scaling_param_list" in kw for kw, _, _ in lenses)
     has_kin = any(lt in lc.KIN_TYPES for _, lt, _ in lenses)
     has_mag = any(lt in lc.MAG_TYPES for _, lt, _ in lenses)
@@ -158,8 +169,10 @@ def gen_config(rng, force=False, mixed=False, custom_sne=False, with_kde=False, 
     # an external posterior chain entering through a kernel density estimate (its own data likelihood, like the lens sample
     # and the supernova term: not evaluated either when the vector is rejected)
     kde = {"n": rng.choice([40, 80]), "seed": rng.randrange(2 ** 30)} if (with_kde or rng.random() < 0.2) else None
+    # the cosmology object handed to the lenses: lenstronomy's interpolation (default) or the astropy object itself
+    interp = False if mag_noninterp else (rng.random() < 0.7)
     return dict(cosmology=cosmology, lenses=lenses, model=model, bounds=bounds, sne=sne, sne_custom=sne_custom, kde=kde,
-                num_draws=rng.choice([2, 3]))
+                num_draws=rng.choice([2, 3]), interp=interp)
 
 
 def kde_chain(cfg):
@@ -238,9 +251,9 @@ def build(cfg):
     if cfg.get("sne_custom"):
         return CosmoLikelihood(ls, cfg["cosmology"], copy.deepcopy(cfg["model"]), copy.deepcopy(cfg["bounds"]),
                                sne_likelihood="CUSTOM", kwargs_sne_likelihood=custom_sne_sample(cfg["sne_custom"]),
-                               interpolate_cosmo=True, num_redshift_interp=60, **extra)
+                               interpolate_cosmo=cfg.get("interp", True), num_redshift_interp=60, **extra)
     return CosmoLikelihood(ls, cfg["cosmology"], copy.deepcopy(cfg["model"]), copy.deepcopy(cfg["bounds"]),
-                           sne_likelihood="Pantheon_binned" if cfg["sne"] else None, interpolate_cosmo=True, num_redshift_interp=60, **extra)
+                           sne_likelihood="Pantheon_binned" if cfg["sne"] else None, interpolate_cosmo=cfg.get("interp", True), num_redshift_interp=60, **extra)
 
 
 def e2(om, ok, z):
@@ -408,7 +421,7 @@ def run(ctx, res):
     ncfg = ctx.n(28, 400)
     lines, meta = [], []
     for t in range(ncfg):
-        cfg = gen_config(rng, force=(t < 2), mixed=(t in (2, 3)), custom_sne=(t == 4), with_kde=(t in (5, 6)), file_sne=(t == 7), dspl=(t == 8))
+        cfg = gen_config(rng, force=(t < 2), mixed=(t in (2, 3)), custom_sne=(t == 4), with_kde=(t in (5, 6)), file_sne=(t == 7), dspl=(t == 8), mag_noninterp=(t == 9))
         if t in (5, 7, 8):
             cfg["cosmology"] = "oLCDM"      # the chain term / a supernova sample read from file together with the curved-model guard
             cfg["bounds"]["kwargs_lower_cosmo"], cfg["bounds"]["kwargs_upper_cosmo"] = (
